@@ -3,6 +3,7 @@ mod hal;
 mod json;
 mod model;
 mod ops;
+mod p12;
 mod panels;
 mod prng;
 mod proto;
